@@ -3,6 +3,7 @@ package rules
 import (
 	"go/token"
 	"go/types"
+	"strings"
 
 	"golang.org/x/tools/go/ssa"
 
@@ -15,7 +16,7 @@ func init() {
 			"(order) the pump registers the message in flight and counts it before writing it to the consumer; (attempts) Attempts is written only by the pump's single increment per delivery and by the decoder; " +
 			"(nonfatal) a failed FIN/REQ/TOUCH yields the non-fatal E_FIN_FAILED/E_REQ_FAILED/E_TOUCH_FAILED and does not touch the client's counters; " +
 			"(copy) each channel beyond the first gets a fresh message object; (final) FIN never re-queues; (backindex) both heaps keep element back-indices consistent with slots.",
-		NotDecided: "the attempts sequence across restarts; heap ordering for all contents (only comparator direction, see C04); interleavings beyond lock discipline.",
+		NotDecided:  "the attempts sequence across restarts; heap ordering for all contents (only comparator direction, see C04); interleavings beyond lock discipline.",
 		Assumptions: []string{"message ids are unique per topic (C12), so at most one in-flight entry per id"},
 	}
 	reg("C02.winner", "LOCK+GUARD+CALLS", "in-flight pop is a single critical section gated by found && owner==caller; only push/pop/initPQ write the in-flight map; consumers' answers act on the popped message", 9, c02winner)
@@ -179,7 +180,12 @@ func pumpAcquires(c *an.Ctx, fn *ssa.Function) (edges []an.Edge, tracked []ssa.V
 	return
 }
 
-func c02order(c *an.Ctx) {
+func c02order(c *an.Ctx) { c02orderOf(c, true, true) }
+
+// c03order: RDY accounting only needs the consumer's in-flight count to be raised before the send.
+func c03order(c *an.Ctx) { c02orderOf(c, false, true) }
+
+func c02orderOf(c *an.Ctx, wantRegistered, wantCounted bool) {
 	fn := c.Fn("nsqd", "(*protocolV2).messagePump")
 	send := c.Fn("nsqd", "(*protocolV2).SendMessage")
 	start := c.Fn("nsqd", "(*Channel).StartInFlightTimeout")
@@ -207,6 +213,9 @@ func c02order(c *an.Ctx) {
 			return ok && an.IsCallTo(ci, sending) && isParam(recvArg(ci), fn, 1)
 		}, "a message can be written to the consumer before the consumer's in-flight count was incremented: RDY accounting under-counts"},
 	} {
+		if (strings.HasPrefix(spec.name, "StartInFlightTimeout") && !wantRegistered) || (strings.HasPrefix(spec.name, "SendingMessage") && !wantCounted) {
+			continue
+		}
 		q := &an.PathQ{Fn: fn, StartEdges: edges, Tracked: tracked,
 			Sink: func(in ssa.Instruction, st *an.PathState) bool {
 				ci, ok := in.(ssa.CallInstruction)
